@@ -12,12 +12,13 @@ Definition dec_any (s : sexp) : anyval :=
 
 Fixpoint dec_node_fuel (fuel : nat) (s : sexp) : node :=
   match fuel with
-  | O => Node 0 0 false [] None None AErr
+  | O => Node 0 0 false [] None None AErr false
   | S f =>
     Node (sN (snth 0 s)) (sN (snth 1 s)) (sbool (snth 2 s)) (sB (snth 3 s))
          (sopt (fun x => map (dec_node_fuel f) (sL x)) (snth 4 s))
          (sopt (fun x => map sN (sL x)) (snth 5 s))
          (dec_any (snth 6 s))
+         (sbool (snth 7 s))
   end.
 Definition dec_node := dec_node_fuel 12.   (* nesting depth of the inputs is at most 6 *)
 
